@@ -301,6 +301,34 @@ def run(ctx):
         ctx.ob('C04-ESCAPE.fstring-literal-braces-re-escaped', f, f.node, esc,
                '' if esc else 'postJoinedStr copies the literal parts of an f-string verbatim: a literal `{{x}}` is regenerated as `{x}` and evaluated as an expression')
 
+    # ---------------------------------------------------------------- OPTIONAL
+    # an optional part of a node is left out of the regenerated text only when it is ABSENT (None; -1 for FormattedValue.conversion; empty
+    # list): a guard that also excludes a meaningful value (`conversion not in (-1, ord('s'))`) silently drops `!s`, which matters for
+    # `f'{x!s:>5}'` and for objects whose __format__ differs from __str__
+    ABSENT = {'conversion': {-1}}
+    nopt = 0
+    for name, f in sorted(pt.methods.items()):
+        if not (name.startswith('post') or name == 'fstring_body'): continue
+        for t in [x for x in ast.walk(f.node) if isinstance(x, (ast.If, ast.IfExp))]:
+            flds = {a.attr for a in ast.walk(t.test) if isinstance(a, ast.Attribute) and isinstance(a.value, ast.Name) and a.attr in
+                    ('conversion', 'format_spec', 'lower', 'upper', 'step', 'vararg', 'kwarg', 'defaults', 'keywords', 'starargs', 'kwargs', 'orelse', 'ifs')}
+            for fld in sorted(flds):
+                nopt += 1
+                tt = t.test; ok = True; why = ''
+                for cmp_ in [c for c in ast.walk(tt) if isinstance(c, ast.Compare) and any(isinstance(a, ast.Attribute) and a.attr == fld for a in ast.walk(c.left))]:
+                    consts = []
+                    for comp in cmp_.comparators:
+                        for c_ in ast.walk(comp):
+                            if isinstance(c_, ast.Constant): consts.append(c_.value)
+                            elif isinstance(c_, ast.UnaryOp) and isinstance(c_.op, ast.USub) and isinstance(c_.operand, ast.Constant): consts.append(-c_.operand.value)
+                            elif isinstance(c_, ast.Call): consts.append(norm(c_))
+                    consts = [c for c in consts if not (isinstance(c, int) and not isinstance(c, bool) and -c in consts and c > 0 and isinstance(cmp_.comparators[0], ast.UnaryOp))]
+                    allowed = {None} | ABSENT.get(fld, set())
+                    extra = [c for c in consts if c not in allowed]
+                    if extra: ok = False; why = 'the guard `%s` also excludes %s' % (norm(tt), extra)
+                ctx.ob('C04-FIELDS.optional-part-omitted-only-when-absent', f, '%s: %s' % (fld, norm(tt)), ok,
+                       '' if ok else '%s: a value of `%s` that is present in the source is left out of the regenerated text' % (why, fld), node=t)
+    ctx.floor('C04-FIELDS', nopt, 4, 'guards on optional parts of a node')
     # ---------------------------------------------------------------- ARITY
     # a tuple display rendered as a bare comma-separated list (the key of a subscript, a parenthesised tuple) needs the
     # trailing comma when it has exactly one element: `d[x,]` is not `d[x]`, `(x,)` is not `(x)`
@@ -431,5 +459,6 @@ MUTANTS = [
     dict(id='C04-m10', file='pony/orm/core.py', fn='extract_vars',
          old="        locals = locals.copy()\n        for name, cell in cells.items():\n            try:\n                locals[name] = cell.cell_contents\n            except ValueError:\n                throw(NameError, 'Free variable `%s` referenced before assignment in enclosing scope' % name)\n",
          new="        closure_vars = {}\n        for name, cell in cells.items():\n            try:\n                closure_vars[name] = cell.cell_contents\n            except ValueError:\n                throw(NameError, 'Free variable `%s` referenced before assignment in enclosing scope' % name)\n        locals = dict(locals, **closure_vars)\n", benign=True),
+    dict(id='C04-m11', file='pony/orm/asttranslation.py', fn='PythonTranslator.fstring_body', old="if item.conversion != -1: src += '!' + chr(item.conversion)", new="if item.conversion not in (-1, ord('s')): src += '!' + chr(item.conversion)", expect='C04-FIELDS.optional'),
     dict(id='C04-m6', file='pony/orm/asttranslation.py', fn='PythonTranslator.postPow', old='    @priority(3)\n    def postPow', new='    @priority(5)\n    def postPow', expect='C04-GROUP'),
 ]
